@@ -26,8 +26,22 @@ type MetricManager struct {
 	providerData              *metricsProviderData
 
 	metricManagerActive bool
+	// guards metricManagerActive: it is read on every transaction and written by a reload
+	activeMu sync.RWMutex
 
 	mu sync.Mutex
+}
+
+func (m *MetricManager) isActive() bool {
+	m.activeMu.RLock()
+	defer m.activeMu.RUnlock()
+	return m.metricManagerActive
+}
+
+func (m *MetricManager) setActive() {
+	m.activeMu.Lock()
+	defer m.activeMu.Unlock()
+	m.metricManagerActive = true
 }
 
 func NewMetricManager() (*MetricManager, error) {
@@ -110,14 +124,14 @@ func (m *MetricManager) ReloadMetricsConfig() error {
 		}
 	}
 
-	m.metricManagerActive = true
+	m.setActive()
 	log.Info().Msg("Metrics manager reloaded")
 	return nil
 }
 
 // UpdateMetricsForAPICall updates the general metrics - relevant for the API calls
 func (m *MetricManager) UpdateMetricsForAPICall(provider APICallMetricsProviderI) {
-	if !m.metricManagerActive {
+	if !m.isActive() {
 		return
 	}
 
@@ -128,7 +142,7 @@ func (m *MetricManager) UpdateMetricsForAPICall(provider APICallMetricsProviderI
 
 // UpdateMetricsForFlow updates the system metrics - relevant for the flows
 func (m *MetricManager) UpdateMetricsForFlow(provider FlowMetricsProviderI) {
-	if !m.metricManagerActive {
+	if !m.isActive() {
 		return
 	}
 
